@@ -24,6 +24,7 @@ import (
 	"fmt"
 	"os"
 	"regexp"
+	"runtime"
 	"strconv"
 	"strings"
 	"testing"
@@ -352,6 +353,13 @@ func TestVerif_C38_Hist(t *testing.T) {
 			rt.Skip("tempdir")
 		}
 		defer rmdir(dir)
+		// diagnostics only: if a case is stuck for 150 s, leave the goroutine stacks behind
+		wd := time.AfterFunc(150*time.Second, func() {
+			buf := make([]byte, 8<<20)
+			buf = buf[:runtime.Stack(buf, true)]
+			os.WriteFile(fmt.Sprintf("/dev/shm/g9-c38-stuck-%d.txt", os.Getpid()), buf, 0o644)
+		})
+		defer wd.Stop()
 		e := &env{t: t, rec: rec, c: vnode.NewCluster(dir, vnode.Fast()), next: h.size}
 		defer e.c.Close()
 		if err := e.c.Form(h.size, 0); err != nil {
@@ -370,6 +378,10 @@ func TestVerif_C38_Hist(t *testing.T) {
 		interesting := false
 		var trace []string
 		for _, k := range h.ops {
+			if e.c.Lost() > 0 {
+				rec.Label("inconclusive:store-close-timeout")
+				break
+			}
 			applied, err := e.apply(rt, k)
 			if errors.Is(err, errInconclusive) {
 				rec.Label("inconclusive:op-" + k.String())
